@@ -1,6 +1,8 @@
 """Executor registry: plan['exec'] -> function(plan) -> World."""
 from .exec_parser import run_parser
+from .exec_peer import run_peer
 
 EXECUTORS = {
     'parser': run_parser,
+    'peer': run_peer,
 }
